@@ -1,17 +1,19 @@
 #!/bin/bash
 # seed_matrix_par.sh [N] — the full seeded-change matrix, N-way parallel: the check driver serialises its build phases
+# env PROPS="C05 C06" restricts to the seeds of those properties, SEED_OUT=<file> redirects the result.
 # on one lock per /verif tree (Gen/ is regenerated per run), so N scratch CLONES of /verif (under /tmp, removed afterwards)
 # each run a share of the seeds with their own Gen/, build cache and lock.  Result: seeded/RESULTS.tsv.
 set -u
 cd "$(dirname "$0")/.."
 V=$PWD; N=${1:-6}; W=/tmp/vclone-$$; mkdir -p $W
-seeds=(); for d in seeded/*/; do seeds+=("$V/${d%/}/"); done
+seeds=(); for d in seeded/*/; do if [ -n "${PROPS:-}" ] && ! echo " $PROPS " | grep -q " $(jq -r .property $d/meta.json) "; then continue; fi; seeds+=("$V/${d%/}/"); done
+OUT=${SEED_OUT:-seeded/RESULTS.tsv}
 for i in $(seq 1 $N); do
   rsync -a --exclude .git --exclude replays --exclude 'evidence' "$V/" "$W/$i/"; mkdir -p "$W/$i/evidence" "$W/$i/replays"; rm -f "$W/$i/.build/lock"
   list=(); for j in "${!seeds[@]}"; do [ $((j % N)) -eq $((i - 1)) ] && list+=("${seeds[$j]}"); done
   ( cd "$W/$i" && SEED_OUT="$W/$i.tsv" SEED_JOBS=1 tools/seed_matrix.sh "${list[@]}" > "$W/$i.log" 2>&1 ) &
 done
 wait
-cat $W/*.tsv | sort > seeded/RESULTS.tsv
-awk -F'\t' '{t++; if ($3==1) c++} END {printf "caught %d of %d\n", c, t}' seeded/RESULTS.tsv
+cat $W/*.tsv | sort > "$OUT"
+awk -F'\t' '{t++; if ($3==1) c++} END {printf "caught %d of %d\n", c, t}' "$OUT"
 rm -rf $W
